@@ -8,12 +8,14 @@ import Lc3V.Driver.Timer
 import Lc3V.Driver.Source
 import Lc3V.Driver.Lex
 import Lc3V.Driver.Parse
+import Lc3V.Driver.Asm
 open Lc3V Lc3V.Driver
 
 structure DState where
   sim : Option SimCtx := none
   tim : Option Timer := none
   src : Option SourceInfo := none
+  objs : Slots := []
 
 def step (st : DState) (line : String) : DState × String :=
   let l := line.trimAscii.toString
@@ -26,6 +28,14 @@ def step (st : DState) (line : String) : DState × String :=
   | "parse" :: args => (st, cmdParse args)
   | "print" :: args => (st, cmdPrint args)
   | "disasm" :: args => (st, cmdDisasm args)
+  | ["oload", slot] =>
+    (match st.sim, slotGet st.objs slot with
+     | some c, some o =>
+       let (r, s') := c.sim.loadObj (o.blocks.map (fun b => (BitVec.ofNat 16 b.1, b.2))) (!o.externalSymbols.isEmpty)
+       ({ st with sim := some { c with sim := s' } }, resStr r)
+     | _, _ => (st, "noslot"))
+  | "asm" :: _ | "link" :: _ | "odump" :: _ | "oq" :: _ | "bser" :: _ | "bde" :: _ | "tser" :: _ | "tde" :: _ =>
+    let (o', out) := cmdObj st.objs (l.splitOn " "); ({ st with objs := o' }, out)
   | "off" :: args  => (st, cmdOff false args)
   | "offt" :: args => (st, cmdOff true args)
   | "wop" :: args => (st, cmdWop args)
